@@ -1,4 +1,5 @@
 import RNacos.Model.Namespace
+import RNacos.Model.Components
 import RNacos.Driver.Util
 /-
 Line protocol of model `apply` (C07/C01): three complete nodes fed the same committed requests.
@@ -8,9 +9,13 @@ the specification oracle judges the relation the properties state: the three nod
 namespace RNacos.Driver.ApplyDrv
 open RNacos.Driver
 
-/-- the model's state: the namespace component of the node that never stops (`L`), driven by the committed namespace
-requests.  (The other components are parameters of the theorems; their dumps are wildcards.) -/
-abbrev MSt := RNacos.Namespace.State
+/-- the model's state: three components of the node that never stops (`L`), driven by the committed requests: the
+namespaces, the replicated sequences, the tables.  (The other components are parameters of the theorems; their dumps
+are wildcards.) -/
+structure MSt where
+  ns : RNacos.Namespace.State := RNacos.Namespace.initial
+  seq : RNacos.Sequence.SeqDb := []
+  tbl : RNacos.Components.Tables := []
 
 def nsId (a : Nat) : String := s!"ns{a % 5}"
 
@@ -23,25 +28,73 @@ def nsReq (kind : String) (a b : Nat) : Option RNacos.Namespace.Req :=
   | "nsdel" => some (.delete (nsId a))
   | _ => none
 
+/-- the sequence request that `mkreq` builds -/
+def seqReq (kind : String) (a b : Nat) : Option RNacos.Sequence.DbOp :=
+  match kind with
+  | "seqnext" => some (.nextId s!"seq{a % 3}")
+  | "seqrange" => some (.nextRange s!"seq{a % 3}" (b % 20 + 1))
+  | "seqset" => some (.setId s!"seq{a % 3}" (1000 + b))
+  | "seqrm" => some (.removeId s!"seq{a % 3}")
+  | _ => none
+
+def strBytes (s : String) : List Nat := s.toUTF8.toList.map (·.toNat)
+
+/-- the table request that `mkreq` builds -/
+def tblReq (kind : String) (a b : Nat) : Option RNacos.Components.TblReq :=
+  let t := if a % 2 == 0 then "T_USER" else "T_CACHE"
+  match kind with
+  | "tblset" => some (.set t (strBytes s!"k{a % 6}") (strBytes s!"val-{b}"))
+  | "tblrm" => some (.remove t (strBytes s!"k{a % 6}"))
+  | "tbldrop" => some (.drop t)
+  | "tblnext" => some (.nextId t)
+  | "tblseq" => some .other
+  | "tblauto" => some .other
+  | _ => none
+
 /-- what the node serves for user namespaces, as the harness prints it: hash of the sorted `id:name` list, `#`, count -/
-def nsDump (s : MSt) : String :=
+def nsDump (s : RNacos.Namespace.State) : String :=
   let l := ((RNacos.Namespace.userList s).map fun e => s!"{e.1}:{e.2}").mergeSort (· ≤ ·)
+  s!"{fnvStr (";".intercalate l)}#{l.length}"
+
+def hexBytes (bs : List Nat) : String := String.join (bs.map hexOfNat)
+
+/-- the `T_SEQUENCE` records of the sequence component as the harness prints them: `name=hex(id_to_bin value)` -/
+def seqDump (db : RNacos.Sequence.SeqDb) : String :=
+  let l := ((RNacos.Components.seqBuild db).map fun r => s!"{r.key}={hexBytes r.value}").mergeSort (· ≤ ·)
+  s!"{fnvStr (";".intercalate l)}#{l.length}"
+
+/-- the `T_USER` / `T_CACHE` records: `tree/hex(key)=hex(value)` -/
+def tblDump (ts : RNacos.Components.Tables) : String :=
+  let l := ((RNacos.Components.tblBuild ts).map fun r => s!"{r.tree}/{hexBytes r.key}={hexBytes r.value}").mergeSort (· ≤ ·)
   s!"{fnvStr (";".intercalate l)}#{l.length}"
 
 def step (s : MSt) (ws : List String) : MSt × String :=
   match ws with
-  | ["start"] => (RNacos.Namespace.initial, "ok")
+  | ["start"] => ({}, "ok")
   | ["req", kind, a, b] =>
     let an := a.toNat?.getD 0
     let bn := b.toNat?.getD 0
-    let s' := match nsReq kind an bn with
-      | some r => RNacos.Namespace.apply s r
+    match seqReq kind an bn with
+    | some op =>
+      -- the leader path answers a hand-out with the ids (`SequenceRaftResult`)
+      let (db', start, len) := s.seq.step op
+      let ans := match op with
+        | .nextId _ => s!"ok:id{start}"
+        | .nextRange _ _ => s!"ok:r{start}+{len}"
+        | _ => "ok"
+      ({ s with seq := db' }, s!"req L={ans} F=queued R=*")
+    | none =>
+    match tblReq kind an bn with
+    | some r => ({ s with tbl := s.tbl.apply r }, "req L=* F=queued R=*")
+    | none =>
+    let ns' := match nsReq kind an bn with
+      | some r => RNacos.Namespace.apply s.ns r
       | none =>
         -- a publish into the tenant of a user namespace (`mkreq`: every third one) makes the config actor announce the
         -- namespace as in use: on the leader path (every request awaited) that has happened before the next request
-        if (kind == "cfgset" || kind == "cfgfull") && bn % 3 == 2 then RNacos.Namespace.setWeak s (nsId an) RNacos.Namespace.fConfig
-        else s
-    (s', "req L=* F=queued R=*")
+        if (kind == "cfgset" || kind == "cfgfull") && bn % 3 == 2 then RNacos.Namespace.setWeak s.ns (nsId an) RNacos.Namespace.fConfig
+        else s.ns
+    ({ s with ns := ns' }, "req L=* F=queued R=*")
   | "req" :: _ => (s, "req L=* F=queued R=*")
   | "reqd" :: _ => (s, "reqd id=* mark=* L=* F=queued R=*")
   | "flush" :: _ => (s, "flush *")
@@ -49,7 +102,7 @@ def step (s : MSt) (ws : List String) : MSt × String :=
   | ["halfcompact", _] => (s, "halfcompact ok")
   | ["restart", _] => (s, "restarted ready applied=* next=*")
   | ["crash", _] => (s, "restarted ready applied=* next=*")
-  | ["dump"] => (s, s!"dump nsL={nsDump s} L=* F=* R=*")
+  | ["dump"] => (s, s!"dump nsL={nsDump s.ns} sqL={seqDump s.seq} tbL={tblDump s.tbl} L=* F=* R=*")
   | ["dumpn"] => (s, "dumpn behind=* LM=* NM=* L=* N=*")
   | ["install", _, _] => (s, "install *")
   | ["catchup", _] => (s, "catchup ok")
